@@ -2,7 +2,7 @@
 
 use crate::batch::{CheckSpec, Tier};
 use crate::exec::{run_case, Case, CaseResult, Engine};
-use crate::gen::{gen_hist, Profile, QUICK, THOROUGH};
+use crate::gen::{gen_conc, gen_hist, ConcProfile, Profile, QUICK, THOROUGH};
 use crate::rng::Rng;
 use crate::sched::{SchedSpec, Strategy};
 use serde_json::json;
@@ -24,7 +24,57 @@ pub fn gen_strategy(rng: &mut Rng, est_steps: u32, concurrent: bool) -> SchedSpe
 pub fn exec_case(case: &Case) -> CaseResult {
     match case.engine {
         Engine::Hist => run_case(case, crate::hist::body),
+        Engine::Conc => exec_conc(case),
         _ => unimplemented!("engine {:?}", case.engine),
+    }
+}
+
+/// Bounded liveness (C09): a run that exceeds the step bound under an unfair scheduler (PCT,
+/// Freeze) is re-executed under fair round robin; only if that also exceeds the bound is it a
+/// violation, otherwise it is counted as an unfair-schedule timeout.
+fn exec_conc(case: &Case) -> CaseResult {
+    let mut res = run_case(case, crate::conc::body);
+    if let Some(pos) = res.findings.iter().position(|f| f.class == "step-bound") {
+        let mut fair = case.clone();
+        fair.sched = SchedSpec { strategy: Strategy::RoundRobin, seed: case.sched.seed };
+        fair.schedule = None;
+        let r2 = run_case(&fair, crate::conc::body);
+        if r2.findings.iter().any(|f| f.class == "step-bound") {
+            res.findings[pos].properties = vec!["C09".into()];
+            res.findings[pos].detail.push_str("; the same plan under a fair round-robin schedule also exceeds the bound");
+        } else {
+            res.findings.remove(pos);
+            res.stats.bump("unfair_schedule_timeouts", 1);
+        }
+    }
+    res
+}
+
+fn conc_case(run_seed: u64, tier: Tier, profile: ConcProfile) -> Case {
+    let mut rng = Rng::new(run_seed);
+    let (plan, params) = gen_conc(&mut rng, profile, tier == Tier::Thorough);
+    let est = (plan.op_count() as u32) * 40;
+    let sched = gen_strategy(&mut rng.fork("sched"), est, true);
+    Case { engine: Engine::Conc, run_seed, plan, sched, schedule: None, fault: None, params, image: None, max_steps: Some(2_000_000) }
+}
+
+fn conc_spec(prop: &'static str, profile: ConcProfile, rule: &'static str, probes: &'static [&'static str], runs: (u64, u64)) -> CheckSpec {
+    CheckSpec {
+        prop,
+        level: "exploration",
+        rule,
+        assumptions: HIST_ASSUMPTIONS.iter().map(|s| s.to_string()).collect(),
+        expected_probes: probes,
+        gen: Box::new(move |rs, _i, tier| conc_case(rs, tier, profile)),
+        exec: Box::new(exec_case),
+        evals: Box::new(|_| 1),
+        runs_quick: runs.0,
+        runs_thorough: runs.1,
+        wall_quick: 60.0,
+        wall_thorough: 1200.0,
+        shrink_plan: true,
+        exhaustive: false,
+        extra: json!({"engine": "conc: 2-5 client tasks + the real background compaction thread on SimFs under SimScheduler; history stamped with the global event sequence number"}),
     }
 }
 
@@ -64,6 +114,33 @@ fn hist_spec(prop: &'static str, profile: Profile, rule: &'static str, probes: &
     }
 }
 
+/// Replace the generator of a spec by a mix of variants selected by run index.
+fn mixed(mut spec: CheckSpec, variants: Vec<(u32, Variant)>) -> CheckSpec {
+    let total: u32 = variants.iter().map(|v| v.0).sum();
+    spec.gen = Box::new(move |rs, i, tier| {
+        let mut x = (crate::rng::mix2(rs, 0x5eed) % total as u64) as u32;
+        let _ = i;
+        for (w, v) in &variants {
+            if x < *w {
+                return match v {
+                    Variant::Hist(p) => hist_case(rs, tier, *p),
+                    Variant::Conc(p) => conc_case(rs, tier, *p),
+                };
+            }
+            x -= *w;
+        }
+        unreachable!()
+    });
+    spec.extra = json!({"engines": "mix of hist (1 client + background thread) and conc (2-5 clients + background thread) runs on SimFs under SimScheduler; see rule"});
+    spec
+}
+
+#[derive(Clone, Copy)]
+enum Variant {
+    Hist(Profile),
+    Conc(ConcProfile),
+}
+
 pub fn spec_for(prop: &str) -> Option<CheckSpec> {
     Some(match prop {
         "C01" => hist_spec(
@@ -73,12 +150,17 @@ pub fn spec_for(prop: &str) -> Option<CheckSpec> {
             &["l0_ge4_over_l1_ge2", "multi_file_level_ge2"],
             (6000, 400_000),
         ),
-        "C03" => hist_spec("C03", Profile::C03, "one evaluation = one simulated single-client history in which snapshots and iterators are taken at arbitrary points, several live at once, and are re-read (get of every universe key, full forward and backward scan, get/scan agreement) after later write bursts, flushes, manual and background compactions; oracle = frozen BTreeMap clone taken at creation. distinct_nontrivial = distinct coverage signatures among runs where tables were written and read back.", &["l0_ge4_over_l1_ge2"], (6000, 400_000)),
+        "C03" => mixed(hist_spec("C03", Profile::C03, "60% hist / 40% conc. conc clause: reader tasks take a snapshot or iterator, dump it immediately and dump it again later (and compare get with scan at the snapshot) while writer tasks keep rotating memtables, flushing and compacting; table-cache capacity 2 in most runs forces a parked reader to re-open files; first and later dumps must be equal and no read may fail. hist clause: one evaluation = one simulated single-client history in which snapshots and iterators are taken at arbitrary points, several live at once, and are re-read (get of every universe key, full forward and backward scan, get/scan agreement) after later write bursts, flushes, manual and background compactions; oracle = frozen BTreeMap clone taken at creation. distinct_nontrivial = distinct coverage signatures among runs where tables were written and read back.", &["l0_ge4_over_l1_ge2"], (6000, 400_000)), vec![(60, Variant::Hist(Profile::C03)), (40, Variant::Conc(ConcProfile::C03))]),
         "C04" => hist_spec("C04", Profile::C04, "one evaluation = one simulated history that builds an LSM shape under scheduler control while up to 3 iterators (latest or at a snapshot) are driven by random cursor programs over {seek(universe key or neighbour), seek_to_first, seek_to_last, next, prev} with direction reversals; after every step is_valid()/current() must equal a model cursor over the sorted visible pairs; iterators stay open across later writes, flushes and compactions. The cursor program is input generation; the simulation content is the layout under the iterator (produced by the background thread under scheduler control) and iterators outliving compaction and file deletion.", &["l0_ge4_over_l1_ge2"], (6000, 400_000)),
-        "C07" => hist_spec("C07", Profile::C07, "one evaluation = one simulated history in which every flush, compact_range(range incl. open ends, empty, reversed) and quiesce is bracketed by full dumps at the latest state and at each live snapshot; dump_before == dump_after (and == model) is required. distinct_nontrivial = distinct coverage signatures among runs where tables were written and read back.", &["l0_ge4_over_l1_ge2", "multi_file_level_ge2"], (6000, 400_000)),
+        "C07" => mixed(hist_spec("C07", Profile::C07, "70% hist / 30% conc. conc clause: after concurrent writers finished (no quiesce), 1-2 reader tasks dump the database forwards/backwards repeatedly while the main task runs flush / compact_range and the background thread compacts; every dump must equal the state captured before. hist clause: one evaluation = one simulated history in which every flush, compact_range(range incl. open ends, empty, reversed) and quiesce is bracketed by full dumps at the latest state and at each live snapshot; dump_before == dump_after (and == model) is required. distinct_nontrivial = distinct coverage signatures among runs where tables were written and read back.", &["l0_ge4_over_l1_ge2", "multi_file_level_ge2"], (6000, 400_000)), vec![(70, Variant::Hist(Profile::C07)), (30, Variant::Conc(ConcProfile::C07))]),
         "C10" => hist_spec("C10", Profile::C10, "one evaluation = one simulated history; after the first open, every reopen, every CheckAll and at the end the database is quiesced and the structured shape (verif_shape) is checked: per level >= 1 files sorted and pairwise disjoint in internal-key order, smallest <= largest, no file number twice, and every file's bounds equal its first/last stored entry (table read back through verif_api::table_entries); cross-checked against NumFilesAtLevel and SSTables descriptors.", &["l0_ge4_over_l1_ge2", "multi_file_level_ge2"], (6000, 400_000)),
-        "C11" => hist_spec("C11", Profile::C11, "one evaluation = one simulated history; the directory listing of SimFs is compared with {CURRENT, LOCK, current manifest, active WAL, tables of the current version} right after every successful open and at quiescent points where no iterator is alive and one reclamation opportunity (flush/compaction end) has passed since the last iterator release; files pending between a release and the next opportunity are counted as lazy_pending_files, not violations; any read failing with NotFound is a violation.", &["l0_ge4_over_l1_ge2"], (6000, 400_000)),
-        "C09" => hist_spec("C09", Profile::C09, "preliminary: single-client histories incl. every descriptor kind; any panic of a RainDB thread or client call, deadlock, re-entrant lock, or background error in a fault-free run", &[], (6000, 400_000)),
+        "C11" => mixed(hist_spec("C11", Profile::C11, "60% hist / 40% conc. conc clause: reader tasks hold iterators (pinned table set known from verif_shape before/after creation; unknown pins counted as pin_unknown) while writers flush and compact with table-cache capacity 2; a remove of a pinned table in the SimFs log during the iterator's lifetime, or any read failing with NotFound, is a violation. hist clause: one evaluation = one simulated history; the directory listing of SimFs is compared with {CURRENT, LOCK, current manifest, active WAL, tables of the current version} right after every successful open and at quiescent points where no iterator is alive and one reclamation opportunity (flush/compaction end) has passed since the last iterator release; files pending between a release and the next opportunity are counted as lazy_pending_files, not violations; any read failing with NotFound is a violation.", &["l0_ge4_over_l1_ge2"], (6000, 400_000)), vec![(60, Variant::Hist(Profile::C11)), (40, Variant::Conc(ConcProfile::C11))]),
+        "C09" => mixed(
+            hist_spec("C09", Profile::C09, "one evaluation = one simulated run, fault-free filesystem: 25% single-client histories incl. every descriptor kind, 35% concurrent runs with writers, readers, compact_range, every descriptor kind (incl. Stats), snapshot take/release, flush, and close while background work may still be in flight, 40% the concurrent workloads of C05/C03/C11/C06. Violations: shuttle reports a deadlock (all live tasks blocked) or a re-entrant lock acquisition; any task of an open database panics (the orphan worker of a failed open is exempt); a background error is recorded; a run exceeds 2M scheduler steps and still does under a fair round-robin schedule (otherwise counted as unfair_schedule_timeouts).", &["freeze_fired"], (8000, 600_000)),
+            vec![(25, Variant::Hist(Profile::C09)), (35, Variant::Conc(ConcProfile::C09)), (10, Variant::Conc(ConcProfile::C05)), (10, Variant::Conc(ConcProfile::C03)), (10, Variant::Conc(ConcProfile::C11)), (10, Variant::Conc(ConcProfile::C06))],
+        ),
+        "C05" => conc_spec("C05", ConcProfile::C05, "one evaluation = one simulated concurrent run: 2-5 client tasks x 5-60 operations over 2-8 keys (unique value tags) with 512 B-4 KiB memtables so that rotation, flush and compaction run continuously; schedulers Random / Sticky / PCT(depth 1-4) / Freeze (parks a task at an unlocked_fair exit, filesystem call or hook until the others are blocked or a step budget expires). The invoke/return history (global event sequence numbers) is checked per key against a register model by a memoised WGL search, with the final quiesced state as a last read; phantom reads, reads from the future and write errors are violations. Histories above the checker budget are counted as unchecked, never as violations.", &["freeze_fired", "group_commit_merged_writers"], (8000, 600_000)),
+        "C06" => conc_spec("C06", ConcProfile::C06, "one evaluation = one simulated concurrent run in which 1-3 writer tasks each own a row group of 2-8 keys and repeatedly apply one batch writing the same fresh tag to every key of the group (sometimes deleting all, sometimes padded beyond the memtable budget) while 1-2 reader tasks take snapshots / iterators and read whole groups; H4 puts a scheduling point after every single memtable insert, SimFs before and after the WAL append. Oracle: in every snapshot-consistent read all keys of a group carry the same tag.", &["freeze_fired"], (8000, 600_000)),
         _ => return None,
     })
 }
